@@ -38,6 +38,7 @@ def escape(ck, agg, b):
         ck.analysed(f)
         n = len(outs)
         sites = 0
+        max_len = []
         for ev, stack in it.collected:
             ok, why = judge(ev)
             if ok is None:
@@ -63,8 +64,15 @@ def escape(ck, agg, b):
                 crc_ok = any(e.kind == "cond" and e.data[0] is True and e.seq < first and isinstance(e.data[1], tuple) and any(isinstance(norm(x), Bytes) and norm(x).parts and norm(x).parts[0][0][0] == "crc24" for x in e.data[1])
                              and isinstance(e.node, ast.Compare) and isinstance(e.node.ops[0], ast.Eq) for e in out.trace)
                 agg.add("R19.2", f, "a packet is decoded and queued only after its CRC-24 matched", crc_ok, "queued without a successful CRC comparison", (news + apps)[0].node)
-                endsym = [e for e in out.trace if e.kind == "cond" and e.seq < first and e.data[0] is True and isinstance(e.node, ast.Compare) and isinstance(e.data[1], tuple) and any(const_of(norm(x)) == 30 for x in e.data[1])]
-                agg.add("R19.2", f, "a packet is decoded only if its length byte leaves room for the CRC inside 32 bytes (end < 30)", bool(endsym), "queued without the length test", (news + apps)[0].node)
+                # by value: on a queueing path the facts bound the length byte L (byte 1 of the de-whitened packet) by 27, i.e. header (2) +
+                # L + CRC (3) fit the 32 received bytes - however the test is written (`end < 30`, `size < 28`, `end + 3 <= 32`)
+                rng = out.state.extra.get("symrng", {})
+                his = [v[1] for k_, v in rng.items() if isinstance(k_, tuple) and len(k_) == 3 and k_[0] == "byteof" and k_[2] == 1 and str(k_[1]).startswith("('whitened'")]
+                okl = bool(his) and all(h is not None and h <= 27 for h in his)
+                agg.add("R19.2", f, "a packet is decoded only if its length byte leaves room for the CRC inside 32 bytes (length byte <= 27)", okl,
+                        "queued although the length byte may be as large as %r (2 + length + 3 must fit in 32 bytes)" % (his[0] if his else "unbounded"), (news + apps)[0].node)
+                if his and None not in his:
+                    max_len.append(max(his))
                 agg.add("R19.5", f, "one received packet queues one element, at the tail", len(apps) == 1 and len(news) == 1, "%d elements constructed, %d appended" % (len(news), len(apps)))
                 crcs = [e for e in out.trace if e.kind == "crc"]
                 if crcs:
@@ -75,6 +83,8 @@ def escape(ck, agg, b):
             for e in rd:
                 agg.add("R19.1", f, "the whole static payload is read", True, "")
         agg.add("R19.1", f, "available() has complete paths", any(o.kind == "return" for o in outs), "no complete path")
+        agg.add("R19.2", f, "a packet that fills all 32 bytes (length byte 27) is accepted", bool(max_len) and max(max_len) == 27,
+                "the largest length byte on any queueing path is %r: a completely filled advertisement (length byte 27) is dropped" % (max(max_len) if max_len else None))
         # de-whiten after bit reversal (inverse order of advertise)
         for out in outs[:1]:
             wh = [e for e in out.trace if e.kind == "whitened"]
@@ -169,6 +179,8 @@ def signedness(ck, agg):
     ck.analysed(f_set)
     enc_bits, enc_fmt, may_neg = None, None, None
     enc_order = None
+    enc_scale, dec_scale = [], []
+    from .net import base_deps as net_base_deps
     for out in outs:
         for e in out.trace:
             if e.kind == "to_bytes":
@@ -181,6 +193,17 @@ def signedness(ck, agg):
                 iv = interval(norm(e.data[2]))
                 enc_bits = iv[1].bit_length() if iv and iv[1] is not None else None
                 may_neg = True  # int(value * 100) of an arbitrary float
+        # the mantissa is value x 100, truncated or rounded, with no offset (an offset followed by int() rounds negative values the wrong way)
+        reg = out.state.extra.get("affine", {})
+        for e in out.trace:
+            if e.kind in ("packarg", "to_bytes"):
+                val = e.data[2] if e.kind == "packarg" else e.data[0]
+                names = set()
+                for d_ in net_base_deps(val):
+                    names.add(d_[0] if isinstance(d_, tuple) and len(d_) == 2 and isinstance(d_[0], tuple) and isinstance(d_[1], int) else d_)
+                hits = [reg[d_] for d_ in sorted(names, key=str) if d_ in reg and reg[d_][3]]
+                if hits:
+                    enc_scale.append(hits[-1])
         d = out.state.heap[obj.ident].fields.get("_data")
         if isinstance(d, Bytes) and d.parts:
             ln = const_of(norm(d.length()))
@@ -194,6 +217,8 @@ def signedness(ck, agg):
     ck.absorb(it)
     ck.analysed(f_get)
     for out in outs:
+        if out.kind == "return" and isinstance(norm(out.value), Sym) and norm(out.value).name in out.state.extra.get("affine", {}):
+            dec_scale.append(out.state.extra["affine"][norm(out.value).name])
         ups = [e for e in out.trace if e.kind == "unpack"]
         if not ups:
             agg.add("R19.4", f_get, "temperature decoder unpacks the data bytes", False, "no struct.unpack on this path")
@@ -215,6 +240,12 @@ def signedness(ck, agg):
         d_order = "big" if order in (">", "!") else "little"
         if e_order is None:
             raise AnalysisError("TemperatureServiceData: how the setter encodes the value is not understood (no struct.pack / int.to_bytes seen)")
+        if enc_scale and dec_scale:
+            (eb, ek, eo, ec), (db, dk, do, dc) = enc_scale[-1], dec_scale[-1]
+            agg.add("R19.4", f_set, "the temperature mantissa is the value scaled by the inverse of the decoder's factor, with no offset (x 100 <-> x 0.01)",
+                    eb == "value" and abs(ek * dk - 1.0) < 1e-9 and eo == 0.0 and do == 0.0,
+                    "encoder stores %s(value x %g %+g), decoder returns mantissa x %g %+g: an offset before int() rounds negative values towards zero the wrong way "
+                    "(-1.0 C is sent as -0.99 C), a scale mismatch changes every value" % ("/".join(ec), ek, eo, dk, do))
         agg.add("R19.4", f_get, "the decoder reads the same byte order the encoder wrote", e_order == d_order, "encoder %s-endian (%r), decoder %s-endian (%r)" % (e_order, enc_fmt or "to_bytes", d_order, fmt))
     n_sc = scalar_codecs(ck, agg)
     return 3 + n_sc
@@ -305,12 +336,12 @@ def pa_level_codec(ck, agg, b):
     for out in b.run(f_mk, [pl], st):
         if out.kind != "return" or not isinstance(out.value, Bytes):
             continue
-        parts = [p[0] for p in out.value.parts]
-        for i_, t in enumerate(parts[:-1]):
-            if t[0] == "items" and len(t[2]) == 2 and const_of(norm(t[2][1])) == TB.AD_TX_POWER:
-                ef = _enc_field(Bytes([(parts[i_ + 1], Const(1))], "bytes"))
-                if ef is not None:
-                    encs.add(ef)
+        # the TX-power structure in the byte-level view of the packet: 02 0A xx - one byte, however it is produced (struct.pack("b"),
+        # `level & 0xFF`, ...); the PA level is 0, -6, -12 or -18 dBm, so that byte is a two's-complement (signed) value
+        cl = c18.cells(out.value.parts)
+        for i_ in range(len(cl) - 2):
+            if cl[i_] == 2 and cl[i_ + 1] == TB.AD_TX_POWER and (isinstance(cl[i_ + 2], int) or (isinstance(cl[i_ + 2], tuple) and cl[i_ + 2][0] == "v")):
+                encs.add((1, True, "big"))      # (a level looked up in a constant table arrives as a known byte on each path)
     ck.analysed(f_mk)
     qe = P.cls("fake_ble", "QueueElement")
     f_dec = P.method(qe, "_decode_data_struct")
